@@ -52,7 +52,7 @@ theorem c01_report_valid_composed (pr : Pairing F G G2 GT) (cd : Codec G) (f : L
     ∀ rep ∈ (handleQuery (tblsCrypto cd f H t n) p a mb r fc).reports,
       rep.result ++ mb.me = c0 ∧ ContractEq pr cd f H (rep.result ++ mb.me) rep.sig
         ∧ rep.index = r.kind.ptype :=
-  Props.C01.report_valid (ContractEq pr cd f H) (tblsCrypto cd f H t n)
+  Props.C01.report_valid_of_content (ContractEq pr cd f H) (tblsCrypto cd f H t n)
     (fun c s h => (verify_iff_contract pr cd f H t n c s).1 h) p a mb r fc c0 hc0 hlen
 
 /-- the same without any pairing: the reported bytes decode to THE group signature `f(0) • H(c0)`
@@ -63,7 +63,7 @@ theorem c01_report_is_group_signature (cd : Codec G) (f : List F) (H : Bytes →
     ∀ rep ∈ (handleQuery (tblsCrypto cd f H t n) p a mb r fc).reports,
       cd.decode rep.sig = some (f.headD 0 • H c0) := by
   intro rep hrep
-  have := Props.C01.report_valid (fun c s => cd.decode s = some (f.headD 0 • H c))
+  have := Props.C01.report_valid_of_content (fun c s => cd.decode s = some (f.headD 0 • H c))
     (tblsCrypto cd f H t n) (fun c s h => (blsVerify_iff cd (H c) (f.headD 0) s).1 h)
     p a mb r fc c0 hc0 hlen rep hrep
   rw [← this.1]; exact this.2.1
